@@ -21,7 +21,7 @@ use crate::{
 };
 
 const ALTS: u16 = 3;
-const SCENS: [Scen; 4] = [Scen::S1, Scen::S1w, Scen::S2, Scen::S3];
+const SCENS: [Scen; 7] = [Scen::S1, Scen::S1w, Scen::S2, Scen::S3, Scen::S4a, Scen::S4r, Scen::S5];
 
 #[derive(Default)]
 struct Agg {
@@ -454,4 +454,39 @@ pub fn main(args: &Args) -> ! {
     rep.sample(json!({"scenario": "S1", "drop": {"recv_after_cancelled_read": 2}, "meaning": "server: at the first pending read after 2 completed reads, drop the read future, then the RecvStream; client never finishes and must see stopped()=Some(0) and write()=Err(Stopped(0))"}));
     rep.sample(json!({"scenario": "S3", "schedule": "default", "waiters": ["closed", "stopped", "accept_bi", "read_datagram", "read", "wait_idle", "server: closed", "server: accept_bi", "server: stopped"]}));
     rep.finish()
+}
+
+
+/// `va c17`: the async layer's part of C17 (0-RTT accepted / rejected through `into_0rtt`, stale
+/// early handles). Explores the schedules of S4a / S4r with E2 and prints one JSON object on
+/// stdout for `vq c17` to merge; never judges on its own (exit 0).
+pub fn c17_async(args: &Args) -> ! {
+    explore::quiet_panics();
+    let thorough = args.tier == Tier::Thorough;
+    let cx = Ctx { base: Instant::now(), agg: Mutex::new(Agg::default()) };
+    let dl = deadline(if thorough { 600 } else { 25 });
+    let k = if thorough { 3 } else { 2 };
+    let mut parts = vec![];
+    let mut hashes = std::collections::BTreeSet::new();
+    let mut execs = 0u64;
+    let mut capped = false;
+    for sc in [Scen::S4a, Scen::S4r] {
+        let spec = Spec::new(sc);
+        let (_, o) = cx.exec(&spec);
+        let t = explore_schedule(&cx, &spec, o.points * 2, 0, k, dl);
+        execs += t.executions;
+        capped |= t.capped;
+        hashes.extend(t.hashes.iter().copied());
+        parts.push(json!({"scenario": sc.name(), "executions": t.executions, "per_k": t.per_k, "capped": t.capped, "choice_points_baseline": o.points}));
+    }
+    let a = cx.agg.lock().unwrap();
+    let mut seen = std::collections::BTreeSet::new();
+    let viol: Vec<serde_json::Value> = a
+        .viol
+        .iter()
+        .filter(|v| seen.insert(v.2.clone()))
+        .map(|(_, _, sig, what, replay)| json!({"signature": sig, "what": what, "replay": replay}))
+        .collect();
+    println!("{}", json!({"executions": execs, "distinct": hashes.len(), "capped": capped, "k": k, "scenarios": parts, "violations": viol}));
+    std::process::exit(0)
 }
